@@ -279,6 +279,17 @@ fn boundary_block_c08(out: &mut dyn Write) {
         }
         writeln!(out, "greg_valid {} {} {} 23 59 60 0", y, m, d).unwrap();
         writeln!(out, "greg_valid {} {} {} 23 59 59 999999999", y, m, d).unwrap();
+        // a genuine leap-second label whose OTHER fields are out of range: the rejection tests must not be skipped
+        // on the leap-second path (nanoseconds above 10^9, day / month / hour / minute off by one)
+        for ns in [1_000_000_001u64, 1_500_000_000, 3_000_000_000, 4_294_967_295] {
+            writeln!(out, "greg_valid {} {} {} 23 59 60 {}", y, m, d, ns).unwrap();
+            writeln!(out, "greg {} {} {} 23 59 60 {} {}", y, m, d, ns, ts2s(SCALES[(i + ns as usize) % 9])).unwrap();
+        }
+        writeln!(out, "greg_valid {} {} {} 23 60 60 0", y, m, d).unwrap();
+        writeln!(out, "greg_valid {} {} {} 24 59 60 0", y, m, d).unwrap();
+        writeln!(out, "greg_valid {} {} {} 23 59 60 0", y, m, d + 1).unwrap();
+        writeln!(out, "greg_valid {} {} {} 23 59 60 0", y, 13, d).unwrap();
+        writeln!(out, "greg_valid {} {} {} 23 59 61 0", y, m, d).unwrap();
     }
     // each scale's reference date-time and its neighbours
     for ts in SCALES.iter() {
